@@ -145,13 +145,21 @@ Fixpoint merge_loop (ps : list pfx) (skip : bool) (names : list name)
                       if negb (a_bf a =? v_bf root) then Fail E_BF
                       else
                         (* tree.Clone(): loads the accumulator's root node unless it is in memory;
-                           ANY error here makes mergeRoots skip this version ("continue") *)
+                           a NoSuchKey makes mergeRoots skip this version ("continue") when
+                           skipping is allowed, any other error fails the open (fix c1ec7dc;
+                           before it every error was skipped) *)
                         bind (match a_inmem a, a_link a with
                               | false, Some l =>
-                                  Do (RGet PNode l) (fun r => match r with RObj (ONode _) => Ret true | _ => Ret false end)
-                              | _, _ => Ret true
+                                  Do (RGet PNode l) (fun r =>
+                                    match r with
+                                    | RObj (ONode _) => Ret 0
+                                    | RNoSuchKey => Ret (if skip then 1 else 2)
+                                    | _ => Ret 2
+                                    end)
+                              | _, _ => Ret 0
                               end) (fun cloned =>
-                        if negb cloned then merge_loop ps skip rest acc merged
+                        if cloned =? 2 then Fail E_LOADTREE
+                        else if cloned =? 1 then merge_loop ps skip rest acc merged
                         else if negb (a_mode a =? v_mode root) then Fail E_MERGE
                         else
                           (* Merge -> DiffIter loads the graft's root node again (twice: once to
@@ -424,11 +432,58 @@ Fixpoint cand_blocks (g : list (name * vobj)) (cs : list name) : prog (list name
       end
   end.
 
+(* fix (vacuum must not delete nodes that a remaining version reaches): the candidate nodes
+   minus every node reachable from this tree, from the versions of the history that stay and
+   from all current versions (one node per tree: the version's link) *)
+Fixpoint remaining_links (g : list (name * vobj)) (cs : list name) (names : list name)
+         (acc : list name) : prog (list name) :=
+  match names with
+  | [] => Ret acc
+  | n :: rest =>
+      match find (fun kv => fst kv =? n) g with
+      | Some (_, v) =>
+          if mem n cs then remaining_links g cs rest acc
+          else bind (load_tree v) (fun l =>
+                 match l with
+                 | LTree _ => remaining_links g cs rest (match v_link v with Some x => x :: acc | None => acc end)
+                 | LGone => Fail E_LOADTREE
+                 | LErr e => Fail e
+                 end)
+      | None =>
+          bind (load_root_any [PCur] n) (fun ro =>
+            match ro with
+            | None => remaining_links g cs rest acc
+            | Some v =>
+                bind (load_tree v) (fun l =>
+                  match l with
+                  | LTree _ => remaining_links g cs rest (match v_link v with Some x => x :: acc | None => acc end)
+                  | LGone => Fail E_LOADTREE
+                  | LErr e => Fail e
+                  end)
+            end)
+      end
+  end.
+
+Definition keep_reachable (h : handle) (g : list (name * vobj)) (cs : list name) (blocks : list name)
+  : prog (list name) :=
+  match blocks with
+  | [] => Ret []
+  | _ =>
+      Do (RList PCur) (fun r =>
+        match r with
+        | RNames cur =>
+            let names := fold_right insert_sorted [] (map fst g ++ cur) in
+            bind (remaining_links g cs names (match h_link h with Some x => [x] | None => [] end)) (fun keep =>
+              Ret (filter (fun b => negb (mem b keep)) blocks))
+        | _ => Fail E_LIST
+        end)
+  end.
+
 Definition delete_historic (h : handle) (before : time) : prog unit :=
   if h_ro h then Fail E_RO else
   bind (load_graph 1000 (h_msources h) []) (fun g =>
     let cs := candidates before g in
-    bind (cand_blocks g cs) (fun blocks =>
+    bind (bind (cand_blocks g cs) (fun blocks0 => keep_reachable h g cs (fold_right insert_sorted [] blocks0))) (fun blocks =>
       bind (del_all PNode (fold_right insert_sorted [] blocks)) (fun _ =>
         bind (del_all PMerged cs) (fun _ =>
           match h_source h with
